@@ -99,3 +99,23 @@ Lemma firstn_add_nat {A} (a b : nat) : forall l : list A, firstn (a + b) l = fir
 Proof.
   induction a as [|a IH]; intros l; [reflexivity|]. destruct l; [destruct b; reflexivity|]. cbn. f_equal. apply IH.
 Qed.
+
+Lemma NoDup_app_snoc {A} (l : list A) (x : A) : NoDup l -> ~ In x l -> NoDup (l ++ [x]).
+Proof.
+  intros Hl Hx. induction l as [|y l IH]; cbn; [constructor; [tauto | constructor]|].
+  inv Hl. constructor.
+  - intros Hin. apply in_app_or in Hin. destruct Hin as [Hin | [-> | []]]; [contradiction|]. apply Hx. left. reflexivity.
+  - apply IH; [assumption|]. intros Hin. apply Hx. right. exact Hin.
+Qed.
+
+Lemma nth_upd_same {A} (d : A) : forall (l : list A) n x, (n < length l)%nat -> nth n (upd l n x) d = x.
+Proof. induction l as [|h t IH]; intros n x H; [cbn in H; lia|]. destruct n; cbn; [reflexivity|]. apply IH. cbn in H. lia. Qed.
+
+Lemma nth_upd_other {A} (d : A) : forall (l : list A) n m x, n <> m -> nth m (upd l n x) d = nth m l d.
+Proof.
+  induction l as [|h t IH]; intros n m x H; [destruct n; reflexivity|].
+  destruct n, m; cbn; try reflexivity; try congruence. apply IH. congruence.
+Qed.
+
+Lemma length_upd {A} : forall (l : list A) n x, length (upd l n x) = length l.
+Proof. induction l as [|h t IH]; intros n x; [reflexivity|]. destruct n; cbn; [reflexivity|]. f_equal. apply IH. Qed.
